@@ -12,7 +12,8 @@ EXTENDS Integers
 TransBytes == 24          \* raw::Transition
 CellBytes == 64           \* RegistryCell / BuilderNodeUnfinished without its transitions
 FrameBytes == 128         \* one StreamState frame
-Slack == 262144           \* allocator rounding, Vec growth, constant-size buffers
+Slack == 1048576          \* allocator rounding, Vec growth, constant-size buffers (generous: a
+                          \* fixed buffer added by a harmless change must not look like growth)
 
 \* a node's transition vector may have doubled its capacity
 NodeBytes(maxFan) == CellBytes + 2 * maxFan * TransBytes
@@ -22,11 +23,11 @@ BuilderBound(cells, maxFan, maxKeyLen) ==
     cells * NodeBytes(maxFan) + (maxKeyLen + 2) * NodeBytes(maxFan) + 2 * maxKeyLen + Slack
 
 \* C14: a stream = one frame per byte of the longest key + the key buffer (doubling)
-StreamBound(maxKeyLen) == 2 * (maxKeyLen + 2) * FrameBytes + 4 * maxKeyLen + 4096
+StreamBound(maxKeyLen) == 4 * (maxKeyLen + 2) * FrameBytes + 4 * maxKeyLen + 65536
 \* a set operation over k streams = k streams + k slots (key buffers) + the heap
-OpBound(k, maxKeyLen) == k * (StreamBound(maxKeyLen) + 256 + 4 * maxKeyLen) + 16384
+OpBound(k, maxKeyLen) == k * (StreamBound(maxKeyLen) + 256 + 4 * maxKeyLen) + 65536
 
 \* growth allowed between a run and a run ten times larger: the default cache
 \* (20 000 cells) is still filling up at 10^5 keys; a traversal has nothing to fill
-GrowthSlack(what) == IF what = "build" THEN 262144 ELSE 1024
+GrowthSlack(what) == IF what = "build" THEN 262144 ELSE 4096
 =============================================================================
